@@ -12,9 +12,10 @@ import vlib
 DECLS = "type A;\npred e(A, A);\npred q(A, A);\npred m(A);\npred s(A);\n"
 ONE = "rule one {\n    if e(x, y);\n    then q(y, x);\n}\n"
 ONE_REV = "rule one {\n    if q(x, y);\n    then e(y, x);\n}\n"
-# rule two looks e up by its second column: adding it changes the column order of e's index and thereby the
+# (its name, one_b, has the name of rule one as a proper prefix: file names of the two components differ only in a suffix)
+# rule one_b looks e up by its second column: adding it changes the column order of e's index and thereby the
 # environment and the loop nest of the *unchanged* rule one (its flat rule stays the same, its library does not)
-TWO = "rule two {\n    if m(z);\n    if e(_, z);\n    then s(z);\n}\n"
+TWO = "rule one_b {\n    if m(z);\n    if e(_, z);\n    then s(z);\n}\n"
 VERSIONS = {
     "v1": DECLS + ONE,
     "v2": DECLS + ONE_REV,
@@ -22,7 +23,7 @@ VERSIONS = {
     "v4": DECLS + ONE + "// a comment that changes the source digest only\n",
 }
 THEORY = "bt"
-COMPS = {"c1": "eql_2_bt_one", "c2": "eql_2_bt_two"}
+COMPS = {"c1": "eql_2_bt_one", "c2": "eql_2_bt_one_b"}
 FAKE_RUSTC = os.path.join(vlib.VERIF, "tools", "fake_rustc.sh")
 
 
